@@ -1,35 +1,61 @@
+// Command moqlint decides the moq properties by static analysis of /repo.
 package main
 
 import (
+	"flag"
 	"fmt"
 	"os"
+	"path/filepath"
 
-	"verif/checker/internal/interp"
+	"verif/checker/internal/core"
 	"verif/checker/internal/load"
-	"verif/checker/internal/tmpl"
+	"verif/checker/internal/props"
 )
 
 func main() {
-	prog, err := load.Load("/repo")
-	if err != nil {
-		fmt.Println(err)
+	prop := flag.String("property", "", "property id (C01..C20)")
+	tier := flag.String("tier", "", "quick or thorough")
+	repo := flag.String("repo", "/repo", "repository to analyse")
+	root := flag.String("verif", "", "verification root (default: parent of the directory holding this binary)")
+	replay := flag.String("replay", "", "replay file written by an earlier run: re-run the property and show that finding again")
+	flag.Parse()
+	if *tier == "" {
+		*tier = os.Getenv("VERIF_TIER")
+	}
+	if *tier != "thorough" {
+		*tier = "quick"
+	}
+	if *root == "" {
+		exe, err := os.Executable()
+		if err == nil {
+			*root = filepath.Dir(filepath.Dir(exe))
+		} else {
+			*root = "/verif"
+		}
+	}
+	p, ok := props.All[*prop]
+	if !ok {
+		fmt.Fprintf(os.Stderr, "unknown property %q\n", *prop)
 		os.Exit(2)
 	}
-	src, err := tmpl.Extract(prog)
+	run := core.NewRun(*prop, *tier, p.Level, *root)
+	defer func() {
+		if r := recover(); r != nil {
+			run.Undecided("checker", "panic", "-", fmt.Sprintf("checker panic: %v", r))
+			os.Exit(run.Finish())
+		}
+	}()
+	prog, err := load.Load(*repo)
 	if err != nil {
-		fmt.Println(err)
-		os.Exit(2)
+		run.Undecided("load", "repository", *repo, "the repository cannot be loaded and type-checked, nothing can be decided: "+err.Error())
+		os.Exit(run.Finish())
 	}
-	fmt.Println(src.NodeCount)
-	env := tmpl.Env{Stub: true, WithResets: true, External: true, Mocks: []tmpl.MockShape{{TypeParams: []tmpl.TPShape{{}, {Explicit: true}}, Methods: []tmpl.MethodShape{{NParams: 2, Variadic: true, NResults: 2}, {}}}}}
-	model := tmpl.BuildModel(env)
-	sk, err := tmpl.Expand(src, func() *interp.Machine { m := interp.New(prog); tmpl.InstallTypesModels(m, prog); return m }, model, nil)
-	if err != nil {
-		fmt.Printf("ERR %#v\n", err)
-		os.Exit(1)
+	run.Count("packages_loaded", len(prog.All))
+	run.Count("moq_packages", len(prog.Moq))
+	ctx := &props.Ctx{Prog: prog, Run: run, Tier: *tier}
+	p.Check(ctx)
+	if *replay != "" {
+		run.Replay = *replay
 	}
-	for _, s := range sk {
-		fmt.Println(s.Text)
-		fmt.Println(s.Notes)
-	}
+	os.Exit(run.Finish())
 }
